@@ -32,6 +32,8 @@ def run(tier):
         checked = [f for f in mod.mod.funcs.values() if "boost::multi" in f.demangled]
         rep.ok("R09.noexcept.scan#%s" % tag, "R09.noexcept", dict(functions_scanned=len(checked), with_terminate_sites=len(sites)))
         nhelpers += ownrules.rollback_rule(rep, mod, tag)
+        if D == 1:
+            nexact = ownrules.rollback_exact(rep, mod, tag, "R09", 3 if tier == "quick" else 5)
         # R09.noalloc
         for n in ("sassign_copy", "sassign_move", "sassign_view", "swap_member", "swap_free", "sswap_free", "assign_move", "view_assign_view", "view_assign_array",
                   "view_move_assign", "view_swap", "view_elements_assign", "array_paren_assign", "ref_assign_ref", "view_fill", "row_assign_row"):
@@ -56,6 +58,7 @@ def run(tier):
                 rep.ok(key + "#" + tag, "R09.noalloc", None)
     rep.need_instances("R09.throwstate exceptional paths", sum(1 for o in rep.obligations if o["family"] in ("R09.throwstate",)), 100 * len(dims))
     rep.need_instances("R09.rollback helpers", nhelpers, 6 * len(dims))
+    rep.need_instances("R09.exact helpers interpreted with unrolled loops", nexact, 9)
     rep.explanation = ("Same abstract interpretation as C08, following the exception edges of the unoptimised IR (invoke / landingpad / resume, calls that "
                        "propagate): every may-throw event (allocator allocate, each adl_* element primitive, external element / allocator members) forks one "
                        "exceptional path; the typestate automaton is evaluated at the point where the exception leaves the operation. This covers every "
